@@ -107,16 +107,19 @@ Proof.
     - intros H. congruence.
     - intros x Hx. apply F4. apply in_app_or in Hx. apply in_or_app. destruct Hx as [Hx|Hx]; [left; apply H1b; exact Hx | right; exact Hx].
     - intros x Hx. apply F5. apply in_app_or in Hx. apply in_or_app. destruct Hx as [Hx|Hx]; [left; apply H3b; exact Hx | right; exact Hx]. }
-  (* phase 2 *)
-  destruct (q12 w) as [|p2 r2] eqn:Eq2.
-  - inversion Hp; subst. split; [apply Hinv; intros x []|].
-    unfold wr_set. cbn [q12 p_q12]. rewrite Epq. rewrite fresh_out_app. rewrite H1a. cbn [app]. replace (fresh_out o3) with (@nil pkt) by (symmetry; exact H3a). reflexivity.
-  - assert (Hp2 : plain p2 = true) by (apply F1; left; reflexivity).
+  (* phase 2: nothing new while a retransmission waits *)
+  assert (Hgate : (match qrel w with [] => q12 w | _ :: _ => [] end) = [] \/ (match qrel w with [] => q12 w | _ :: _ => [] end) = q12 w)
+    by (destruct (qrel w); auto).
+  destruct (match qrel w with [] => q12 w | _ :: _ => [] end) as [|p2 r2] eqn:Eg.
+  - inversion Hp; subst. split; [apply Hinv; intros x Hx; exact Hx|].
+    unfold wr_set. cbn [q12 p_q12]. rewrite Epq. rewrite fresh_out_app, H1a. cbn [app]. rewrite H3a. cbn [app map]. rewrite app_nil_r. reflexivity.
+  - destruct Hgate as [Hc|Eq2]; [discriminate|]. symmetry in Eq2.
+    assert (Hp2 : plain p2 = true) by (apply F1; rewrite Eq2; left; reflexivity).
     destruct (quota_available (fl w)).
     + destruct (acquire (fl w)) as [[id f']| |]; [|inversion Hp|inversion Hp].
       rewrite (plain_not_expired now (with_id p2 id)) in Hp by (rewrite plain_with_id; exact Hp2).
-      inversion Hp; subst. split; [apply Hinv; intros x Hx; right; exact Hx|].
-      unfold wr_set. cbn [q12 p_q12]. rewrite Epq. rewrite fresh_out_app, H1a. cbn [app].
+      inversion Hp; subst. split; [apply Hinv; intros x Hx; rewrite Eq2; right; exact Hx|].
+      unfold wr_set. cbn [q12 p_q12]. rewrite Epq, Eq2. rewrite fresh_out_app, H1a. cbn [app].
       change (with_id p2 id :: o3) with ([with_id p2 id] ++ o3). rewrite fresh_out_app, H3a, app_nil_r.
       unfold fresh_out. cbn [filter]. rewrite plain_with_id, Hp2. cbn [app map]. rewrite app_nil_r. reflexivity.
     + inversion Hp; subst. split; [apply Hinv; intros x Hx; exact Hx|].
